@@ -43,6 +43,9 @@ theories/Config.vos theories/Config.vok theories/Config.required_vos: theories/C
 theories/ConfigProofs.vo theories/ConfigProofs.glob theories/ConfigProofs.v.beautified theories/ConfigProofs.required_vo: theories/ConfigProofs.v theories/Base.vo theories/UStr.vo theories/ConfigTypes.vo theories/UserData.vo theories/Config.vo gen/ConfigTables.vo
 theories/ConfigProofs.vio: theories/ConfigProofs.v theories/Base.vio theories/UStr.vio theories/ConfigTypes.vio theories/UserData.vio theories/Config.vio gen/ConfigTables.vio
 theories/ConfigProofs.vos theories/ConfigProofs.vok theories/ConfigProofs.required_vos: theories/ConfigProofs.v theories/Base.vos theories/UStr.vos theories/ConfigTypes.vos theories/UserData.vos theories/Config.vos gen/ConfigTables.vos
+theories/ConfigTagsProofs.vo theories/ConfigTagsProofs.glob theories/ConfigTagsProofs.v.beautified theories/ConfigTagsProofs.required_vo: theories/ConfigTagsProofs.v theories/Base.vo theories/UStr.vo theories/ConfigTypes.vo theories/Config.vo theories/ConfigProofs.vo
+theories/ConfigTagsProofs.vio: theories/ConfigTagsProofs.v theories/Base.vio theories/UStr.vio theories/ConfigTypes.vio theories/Config.vio theories/ConfigProofs.vio
+theories/ConfigTagsProofs.vos theories/ConfigTagsProofs.vok theories/ConfigTagsProofs.required_vos: theories/ConfigTagsProofs.v theories/Base.vos theories/UStr.vos theories/ConfigTypes.vos theories/Config.vos theories/ConfigProofs.vos
 theories/ConfigTypes.vo theories/ConfigTypes.glob theories/ConfigTypes.v.beautified theories/ConfigTypes.required_vo: theories/ConfigTypes.v theories/Base.vo
 theories/ConfigTypes.vio: theories/ConfigTypes.v theories/Base.vio
 theories/ConfigTypes.vos theories/ConfigTypes.vok theories/ConfigTypes.required_vos: theories/ConfigTypes.v theories/Base.vos
@@ -70,6 +73,9 @@ theories/GherkinProofs.vos theories/GherkinProofs.vok theories/GherkinProofs.req
 theories/GherkinRowProofs.vo theories/GherkinRowProofs.glob theories/GherkinRowProofs.v.beautified theories/GherkinRowProofs.required_vo: theories/GherkinRowProofs.v theories/Base.vo theories/UStr.vo theories/GherkinTypes.vo theories/Gherkin.vo theories/UserDataProofs.vo
 theories/GherkinRowProofs.vio: theories/GherkinRowProofs.v theories/Base.vio theories/UStr.vio theories/GherkinTypes.vio theories/Gherkin.vio theories/UserDataProofs.vio
 theories/GherkinRowProofs.vos theories/GherkinRowProofs.vok theories/GherkinRowProofs.required_vos: theories/GherkinRowProofs.v theories/Base.vos theories/UStr.vos theories/GherkinTypes.vos theories/Gherkin.vos theories/UserDataProofs.vos
+theories/GherkinTagProofs.vo theories/GherkinTagProofs.glob theories/GherkinTagProofs.v.beautified theories/GherkinTagProofs.required_vo: theories/GherkinTagProofs.v theories/Base.vo theories/UStr.vo theories/GherkinTypes.vo theories/Gherkin.vo theories/GherkinProofs.vo theories/GherkinBlockProofs.vo
+theories/GherkinTagProofs.vio: theories/GherkinTagProofs.v theories/Base.vio theories/UStr.vio theories/GherkinTypes.vio theories/Gherkin.vio theories/GherkinProofs.vio theories/GherkinBlockProofs.vio
+theories/GherkinTagProofs.vos theories/GherkinTagProofs.vok theories/GherkinTagProofs.required_vos: theories/GherkinTagProofs.v theories/Base.vos theories/UStr.vos theories/GherkinTypes.vos theories/Gherkin.vos theories/GherkinProofs.vos theories/GherkinBlockProofs.vos
 theories/GherkinTypes.vo theories/GherkinTypes.glob theories/GherkinTypes.v.beautified theories/GherkinTypes.required_vo: theories/GherkinTypes.v theories/Base.vo
 theories/GherkinTypes.vio: theories/GherkinTypes.v theories/Base.vio
 theories/GherkinTypes.vos theories/GherkinTypes.vok theories/GherkinTypes.required_vos: theories/GherkinTypes.v theories/Base.vos
@@ -97,6 +103,9 @@ theories/RegexProofs.vos theories/RegexProofs.vok theories/RegexProofs.required_
 theories/Rerun.vo theories/Rerun.glob theories/Rerun.v.beautified theories/Rerun.required_vo: theories/Rerun.v theories/Base.vo theories/Status.vo theories/Rollup.vo theories/Runner.vo theories/Summary.vo theories/Select.vo theories/SelectProofs.vo gen/StatusTable.vo
 theories/Rerun.vio: theories/Rerun.v theories/Base.vio theories/Status.vio theories/Rollup.vio theories/Runner.vio theories/Summary.vio theories/Select.vio theories/SelectProofs.vio gen/StatusTable.vio
 theories/Rerun.vos theories/Rerun.vok theories/Rerun.required_vos: theories/Rerun.v theories/Base.vos theories/Status.vos theories/Rollup.vos theories/Runner.vos theories/Summary.vos theories/Select.vos theories/SelectProofs.vos gen/StatusTable.vos
+theories/RerunMore.vo theories/RerunMore.glob theories/RerunMore.v.beautified theories/RerunMore.required_vo: theories/RerunMore.v theories/Base.vo theories/Status.vo theories/Rollup.vo theories/Runner.vo theories/RunnerSteps.vo theories/Summary.vo theories/Select.vo theories/SelectProofs.vo theories/Rerun.vo gen/StatusTable.vo
+theories/RerunMore.vio: theories/RerunMore.v theories/Base.vio theories/Status.vio theories/Rollup.vio theories/Runner.vio theories/RunnerSteps.vio theories/Summary.vio theories/Select.vio theories/SelectProofs.vio theories/Rerun.vio gen/StatusTable.vio
+theories/RerunMore.vos theories/RerunMore.vok theories/RerunMore.required_vos: theories/RerunMore.v theories/Base.vos theories/Status.vos theories/Rollup.vos theories/Runner.vos theories/RunnerSteps.vos theories/Summary.vos theories/Select.vos theories/SelectProofs.vos theories/Rerun.vos gen/StatusTable.vos
 theories/Rollup.vo theories/Rollup.glob theories/Rollup.v.beautified theories/Rollup.required_vo: theories/Rollup.v theories/Base.vo theories/Status.vo gen/StatusTable.vo
 theories/Rollup.vio: theories/Rollup.v theories/Base.vio theories/Status.vio gen/StatusTable.vio
 theories/Rollup.vos theories/Rollup.vok theories/Rollup.required_vos: theories/Rollup.v theories/Base.vos theories/Status.vos gen/StatusTable.vos
@@ -115,6 +124,9 @@ theories/RunnerHooks.vos theories/RunnerHooks.vok theories/RunnerHooks.required_
 theories/RunnerLocal.vo theories/RunnerLocal.glob theories/RunnerLocal.v.beautified theories/RunnerLocal.required_vo: theories/RunnerLocal.v theories/Base.vo theories/Status.vo theories/Rollup.vo theories/Runner.vo theories/RunnerQuiet.vo theories/RunnerHooks.vo gen/StatusTable.vo
 theories/RunnerLocal.vio: theories/RunnerLocal.v theories/Base.vio theories/Status.vio theories/Rollup.vio theories/Runner.vio theories/RunnerQuiet.vio theories/RunnerHooks.vio gen/StatusTable.vio
 theories/RunnerLocal.vos theories/RunnerLocal.vok theories/RunnerLocal.required_vos: theories/RunnerLocal.v theories/Base.vos theories/Status.vos theories/Rollup.vos theories/Runner.vos theories/RunnerQuiet.vos theories/RunnerHooks.vos gen/StatusTable.vos
+theories/RunnerOrder.vo theories/RunnerOrder.glob theories/RunnerOrder.v.beautified theories/RunnerOrder.required_vo: theories/RunnerOrder.v theories/Base.vo theories/Status.vo theories/Rollup.vo theories/Runner.vo theories/RunnerSteps.vo theories/RunnerQuiet.vo theories/RunnerHooks.vo gen/StatusTable.vo
+theories/RunnerOrder.vio: theories/RunnerOrder.v theories/Base.vio theories/Status.vio theories/Rollup.vio theories/Runner.vio theories/RunnerSteps.vio theories/RunnerQuiet.vio theories/RunnerHooks.vio gen/StatusTable.vio
+theories/RunnerOrder.vos theories/RunnerOrder.vok theories/RunnerOrder.required_vos: theories/RunnerOrder.v theories/Base.vos theories/Status.vos theories/Rollup.vos theories/Runner.vos theories/RunnerSteps.vos theories/RunnerQuiet.vos theories/RunnerHooks.vos gen/StatusTable.vos
 theories/RunnerQuiet.vo theories/RunnerQuiet.glob theories/RunnerQuiet.v.beautified theories/RunnerQuiet.required_vo: theories/RunnerQuiet.v theories/Base.vo theories/Status.vo theories/Rollup.vo theories/Runner.vo theories/RunnerSteps.vo theories/RunnerVerdict.vo gen/StatusTable.vo
 theories/RunnerQuiet.vio: theories/RunnerQuiet.v theories/Base.vio theories/Status.vio theories/Rollup.vio theories/Runner.vio theories/RunnerSteps.vio theories/RunnerVerdict.vio gen/StatusTable.vio
 theories/RunnerQuiet.vos theories/RunnerQuiet.vok theories/RunnerQuiet.required_vos: theories/RunnerQuiet.v theories/Base.vos theories/Status.vos theories/Rollup.vos theories/Runner.vos theories/RunnerSteps.vos theories/RunnerVerdict.vos gen/StatusTable.vos
@@ -175,15 +187,15 @@ theories/UserDataProofs.vos theories/UserDataProofs.vok theories/UserDataProofs.
 props/C01.vo props/C01.glob props/C01.v.beautified props/C01.required_vo: props/C01.v theories/Base.vo theories/Status.vo theories/Rollup.vo theories/Runner.vo theories/RunnerVerdict.vo theories/RunnerSteps.vo theories/RunnerQuiet.vo theories/RunnerEq.vo gen/StatusTable.vo
 props/C01.vio: props/C01.v theories/Base.vio theories/Status.vio theories/Rollup.vio theories/Runner.vio theories/RunnerVerdict.vio theories/RunnerSteps.vio theories/RunnerQuiet.vio theories/RunnerEq.vio gen/StatusTable.vio
 props/C01.vos props/C01.vok props/C01.required_vos: props/C01.v theories/Base.vos theories/Status.vos theories/Rollup.vos theories/Runner.vos theories/RunnerVerdict.vos theories/RunnerSteps.vos theories/RunnerQuiet.vos theories/RunnerEq.vos gen/StatusTable.vos
-props/C02.vo props/C02.glob props/C02.v.beautified props/C02.required_vo: props/C02.v theories/Base.vo theories/Status.vo theories/Rollup.vo theories/Runner.vo theories/RunnerSteps.vo theories/RunnerQuiet.vo theories/RunnerEq.vo gen/StatusTable.vo
-props/C02.vio: props/C02.v theories/Base.vio theories/Status.vio theories/Rollup.vio theories/Runner.vio theories/RunnerSteps.vio theories/RunnerQuiet.vio theories/RunnerEq.vio gen/StatusTable.vio
-props/C02.vos props/C02.vok props/C02.required_vos: props/C02.v theories/Base.vos theories/Status.vos theories/Rollup.vos theories/Runner.vos theories/RunnerSteps.vos theories/RunnerQuiet.vos theories/RunnerEq.vos gen/StatusTable.vos
+props/C02.vo props/C02.glob props/C02.v.beautified props/C02.required_vo: props/C02.v theories/Base.vo theories/Status.vo theories/Rollup.vo theories/Runner.vo theories/RunnerSteps.vo theories/RunnerQuiet.vo theories/RunnerEq.vo theories/RunnerOrder.vo gen/StatusTable.vo
+props/C02.vio: props/C02.v theories/Base.vio theories/Status.vio theories/Rollup.vio theories/Runner.vio theories/RunnerSteps.vio theories/RunnerQuiet.vio theories/RunnerEq.vio theories/RunnerOrder.vio gen/StatusTable.vio
+props/C02.vos props/C02.vok props/C02.required_vos: props/C02.v theories/Base.vos theories/Status.vos theories/Rollup.vos theories/Runner.vos theories/RunnerSteps.vos theories/RunnerQuiet.vos theories/RunnerEq.vos theories/RunnerOrder.vos gen/StatusTable.vos
 props/C03.vo props/C03.glob props/C03.v.beautified props/C03.required_vo: props/C03.v theories/Base.vo theories/Status.vo theories/Rollup.vo theories/RollupProofs.vo gen/StatusTable.vo
 props/C03.vio: props/C03.v theories/Base.vio theories/Status.vio theories/Rollup.vio theories/RollupProofs.vio gen/StatusTable.vio
 props/C03.vos props/C03.vok props/C03.required_vos: props/C03.v theories/Base.vos theories/Status.vos theories/Rollup.vos theories/RollupProofs.vos gen/StatusTable.vos
-props/C04.vo props/C04.glob props/C04.v.beautified props/C04.required_vo: props/C04.v theories/Base.vo theories/UStr.vo theories/GherkinTypes.vo theories/Gherkin.vo theories/GherkinProofs.vo theories/GherkinRowProofs.vo theories/GherkinBlockProofs.vo gen/GherkinTables.vo
-props/C04.vio: props/C04.v theories/Base.vio theories/UStr.vio theories/GherkinTypes.vio theories/Gherkin.vio theories/GherkinProofs.vio theories/GherkinRowProofs.vio theories/GherkinBlockProofs.vio gen/GherkinTables.vio
-props/C04.vos props/C04.vok props/C04.required_vos: props/C04.v theories/Base.vos theories/UStr.vos theories/GherkinTypes.vos theories/Gherkin.vos theories/GherkinProofs.vos theories/GherkinRowProofs.vos theories/GherkinBlockProofs.vos gen/GherkinTables.vos
+props/C04.vo props/C04.glob props/C04.v.beautified props/C04.required_vo: props/C04.v theories/Base.vo theories/UStr.vo theories/GherkinTypes.vo theories/Gherkin.vo theories/GherkinProofs.vo theories/GherkinRowProofs.vo theories/GherkinBlockProofs.vo theories/GherkinTagProofs.vo gen/GherkinTables.vo
+props/C04.vio: props/C04.v theories/Base.vio theories/UStr.vio theories/GherkinTypes.vio theories/Gherkin.vio theories/GherkinProofs.vio theories/GherkinRowProofs.vio theories/GherkinBlockProofs.vio theories/GherkinTagProofs.vio gen/GherkinTables.vio
+props/C04.vos props/C04.vok props/C04.required_vos: props/C04.v theories/Base.vos theories/UStr.vos theories/GherkinTypes.vos theories/Gherkin.vos theories/GherkinProofs.vos theories/GherkinRowProofs.vos theories/GherkinBlockProofs.vos theories/GherkinTagProofs.vos gen/GherkinTables.vos
 props/C05.vo props/C05.glob props/C05.v.beautified props/C05.required_vo: props/C05.v theories/Base.vo theories/UStr.vo theories/GherkinTypes.vo theories/Gherkin.vo theories/GherkinProofs.vo
 props/C05.vio: props/C05.v theories/Base.vio theories/UStr.vio theories/GherkinTypes.vio theories/Gherkin.vio theories/GherkinProofs.vio
 props/C05.vos props/C05.vok props/C05.required_vos: props/C05.v theories/Base.vos theories/UStr.vos theories/GherkinTypes.vos theories/Gherkin.vos theories/GherkinProofs.vos
@@ -220,15 +232,15 @@ props/C15.vos props/C15.vok props/C15.required_vos: props/C15.v theories/Base.vo
 props/C16.vo props/C16.glob props/C16.v.beautified props/C16.required_vo: props/C16.v theories/Base.vo theories/UStr.vo theories/Status.vo theories/JUnit.vo theories/JUnitProofs.vo gen/StatusTable.vo gen/JUnitTables.vo
 props/C16.vio: props/C16.v theories/Base.vio theories/UStr.vio theories/Status.vio theories/JUnit.vio theories/JUnitProofs.vio gen/StatusTable.vio gen/JUnitTables.vio
 props/C16.vos props/C16.vok props/C16.required_vos: props/C16.v theories/Base.vos theories/UStr.vos theories/Status.vos theories/JUnit.vos theories/JUnitProofs.vos gen/StatusTable.vos gen/JUnitTables.vos
-props/C17.vo props/C17.glob props/C17.v.beautified props/C17.required_vo: props/C17.v theories/Base.vo theories/Status.vo theories/Rollup.vo theories/Runner.vo theories/Summary.vo theories/Select.vo theories/SelectProofs.vo theories/Rerun.vo gen/StatusTable.vo
-props/C17.vio: props/C17.v theories/Base.vio theories/Status.vio theories/Rollup.vio theories/Runner.vio theories/Summary.vio theories/Select.vio theories/SelectProofs.vio theories/Rerun.vio gen/StatusTable.vio
-props/C17.vos props/C17.vok props/C17.required_vos: props/C17.v theories/Base.vos theories/Status.vos theories/Rollup.vos theories/Runner.vos theories/Summary.vos theories/Select.vos theories/SelectProofs.vos theories/Rerun.vos gen/StatusTable.vos
+props/C17.vo props/C17.glob props/C17.v.beautified props/C17.required_vo: props/C17.v theories/Base.vo theories/Status.vo theories/Rollup.vo theories/Runner.vo theories/Summary.vo theories/Select.vo theories/SelectProofs.vo theories/Rerun.vo theories/RunnerSteps.vo theories/RerunMore.vo gen/StatusTable.vo
+props/C17.vio: props/C17.v theories/Base.vio theories/Status.vio theories/Rollup.vio theories/Runner.vio theories/Summary.vio theories/Select.vio theories/SelectProofs.vio theories/Rerun.vio theories/RunnerSteps.vio theories/RerunMore.vio gen/StatusTable.vio
+props/C17.vos props/C17.vok props/C17.required_vos: props/C17.v theories/Base.vos theories/Status.vos theories/Rollup.vos theories/Runner.vos theories/Summary.vos theories/Select.vos theories/SelectProofs.vos theories/Rerun.vos theories/RunnerSteps.vos theories/RerunMore.vos gen/StatusTable.vos
 props/C18.vo props/C18.glob props/C18.v.beautified props/C18.required_vo: props/C18.v theories/Base.vo theories/Capture.vo theories/CaptureProofs.vo
 props/C18.vio: props/C18.v theories/Base.vio theories/Capture.vio theories/CaptureProofs.vio
 props/C18.vos props/C18.vok props/C18.required_vos: props/C18.v theories/Base.vos theories/Capture.vos theories/CaptureProofs.vos
 props/C19.vo props/C19.glob props/C19.v.beautified props/C19.required_vo: props/C19.v theories/Base.vo theories/UStr.vo theories/ActiveTag.vo theories/ActiveTagProofs.vo
 props/C19.vio: props/C19.v theories/Base.vio theories/UStr.vio theories/ActiveTag.vio theories/ActiveTagProofs.vio
 props/C19.vos props/C19.vok props/C19.required_vos: props/C19.v theories/Base.vos theories/UStr.vos theories/ActiveTag.vos theories/ActiveTagProofs.vos
-props/C20.vo props/C20.glob props/C20.v.beautified props/C20.required_vo: props/C20.v theories/Base.vo theories/UStr.vo theories/ConfigTypes.vo theories/UserData.vo theories/Config.vo theories/ConfigProofs.vo theories/UserDataProofs.vo gen/ConfigTables.vo
-props/C20.vio: props/C20.v theories/Base.vio theories/UStr.vio theories/ConfigTypes.vio theories/UserData.vio theories/Config.vio theories/ConfigProofs.vio theories/UserDataProofs.vio gen/ConfigTables.vio
-props/C20.vos props/C20.vok props/C20.required_vos: props/C20.v theories/Base.vos theories/UStr.vos theories/ConfigTypes.vos theories/UserData.vos theories/Config.vos theories/ConfigProofs.vos theories/UserDataProofs.vos gen/ConfigTables.vos
+props/C20.vo props/C20.glob props/C20.v.beautified props/C20.required_vo: props/C20.v theories/Base.vo theories/UStr.vo theories/ConfigTypes.vo theories/UserData.vo theories/Config.vo theories/ConfigProofs.vo theories/ConfigTagsProofs.vo theories/UserDataProofs.vo gen/ConfigTables.vo
+props/C20.vio: props/C20.v theories/Base.vio theories/UStr.vio theories/ConfigTypes.vio theories/UserData.vio theories/Config.vio theories/ConfigProofs.vio theories/ConfigTagsProofs.vio theories/UserDataProofs.vio gen/ConfigTables.vio
+props/C20.vos props/C20.vok props/C20.required_vos: props/C20.v theories/Base.vos theories/UStr.vos theories/ConfigTypes.vos theories/UserData.vos theories/Config.vos theories/ConfigProofs.vos theories/ConfigTagsProofs.vos theories/UserDataProofs.vos gen/ConfigTables.vos
